@@ -17,6 +17,7 @@ def oracle_deadlock(Q):
     nodes = {nd.id_number: nd for nd in Q.transitive_nodes}
     D = set()
     for nid, nd in nodes.items():
+        if nd.c == float('inf'): continue   # an infinite-server node always has a free server: never part of a deadlock
         if nd.c > 0 and len(nd.servers) > 0 and all(s.cust and s.cust.is_blocked for s in nd.servers):
             D.add(nid)
     changed = True
@@ -79,6 +80,9 @@ def make_spec(seed):
                 tracker=r.choice(['NaiveBlocking', 'MatrixBlocking', 'NodePopulation']), lattice=lattice,
                 disciplines=[r.choice(['FIFO', 'FIFO', 'LIFO', 'SIRO']) for _ in range(n)])
     spec['exact'] = r.choice([12, 20]) if r.random() < 0.12 else False
+    r2 = random.Random(seed * 7 + 1)   # separate stream: older replay files keep their meaning
+    if n >= 2 and r2.random() < 0.15:
+        spec['servers'][r2.randrange(n)] = 'inf'
     spec['tie'] = r.choice(['native', 'native', 'first', 'last']) if lattice else 'native'
     return spec
 
@@ -87,7 +91,7 @@ def build(spec):
     kw = dict(arrival_distributions={c: [gen.make_dist(d) for d in spec['arrivals'][c]] for c in spec['classes']},
               service_distributions={c: [gen.make_dist(d) for d in spec['services'][c]] for c in spec['classes']},
               routing={c: [list(row) for row in spec['routing'][c]] for c in spec['classes']},
-              number_of_servers=list(spec['servers']), queue_capacities=list(spec['qcaps']),
+              number_of_servers=[float('inf') if c == 'inf' else c for c in spec['servers']], queue_capacities=list(spec['qcaps']),
               service_disciplines=[getattr(ciw.disciplines, d) for d in spec['disciplines']])
     if spec['priorities']: kw['priority_classes'] = dict(spec['priorities'])
     return ciw.create_network(**kw)
